@@ -24,7 +24,6 @@ Proof. exact unknown_retained. Qed.
 Theorem C07_unknown_roundtrip : forall sc ty p fast dest m al,
   schema_ok sc = true -> legal_msg sc (S (length p)) ty p = true -> no_dup_msgs sc (S (length p)) ty p = true ->
   gen_unmarshal_into sc fast ty dest p = UOk m al ->
-  neg_zero_free sc (S (vdepth m)) ty m = true ->
   N.of_nat (gen_size sc (S (vdepth m)) ty m) < 2^31 ->
   exists b v v', gen_marshal sc ty m = MBytes b /\ length b = gen_size sc (S (vdepth m)) ty m /\
     ref_decode sc (S (length p)) ty p = Some v /\ ref_decode sc (S (length b)) ty b = Some v' /\
